@@ -46,9 +46,10 @@ const USER_AC: &str = r#"{"amar":"tomar","onno":"Onno","as":"ash","kk":"kOk"}"#;
 const OTHER_STORE: &str = r#"{"ami":"আমি","as":"এস","sesh":"সেস"}"#;
 const OTHER_AC: &str = r#"{"ami":"tumi","sesh":"shesh","as":"aS"}"#;
 
-const WORDS: [&str; 30] = [
+// (the last five are emoticons whose word part also has dictionary or auto-correct hits)
+const WORDS: [&str; 35] = [
     "onno", "onnogulo", "ami", "Ami", "amI", "amar", "amake", "as", "asgulo", "ase", "kotha", "kothay", "sesh", "seshe", "sesher", "ebong", "ebongmala", "hothat", "hothate", "e", "ei",
-    "computer", "smile", "cool", "atm", "atme", "formate", "kkhetr", "kk", "a",
+    "computer", "smile", "cool", "atm", "atme", "formate", "kkhetr", "kk", "a", "xD", "8D", "o:D", ":D", "xP",
 ];
 const PUNCT: &str = "-]~!@#%&*()_=+[{}'\";<>/?|.,:`\\$^";
 const LETTERS: &str = "abcdefghijklmnopqrstuvwxyzOIUTDNRSZ12";
@@ -415,7 +416,7 @@ impl Prop for C05 {
     }
     fn rule(&self) -> String {
         "random cases: phonetic configuration drawn from a pool of 6 option sets (so that every warm context lives through hundreds of cases; memo sizes reached are reported under maxima); a pre-populated learned-selection store and user auto-correct file held fixed; \
-         0-6 prior words drawn from a vocabulary built to collide with the target (its prefixes, extensions with suffixes, case variants, other wrappings, the 30 base words) each ended by finish / ctrl-backspace / commit of the pre-selected index; \
+         0-6 prior words drawn from a vocabulary built to collide with the target (its prefixes, extensions with suffixes, case variants, other wrappings, the 35 base words (5 of them emoticons with dictionary hits)) each ended by finish / ctrl-backspace / commit of the pre-selected index; \
          the target (wrapped/unwrapped known words and random strings) reached through an insert/backspace edit script with detours; a second context over another user directory with other options poked between events in half of the cases. \
          In a quarter of the cases the final event is a backspace that deletes an extra character (a punctuation key with a selection byte, or a letter) in the warm context and an extra k in the reference. Reference: a context whose method object is re-created (update_engine to another layout and back) before each comparison types the target directly with the same final selection byte; \
          every mismatch is re-checked from scratch (all earlier cases of that warm context are replayed on a new context, then the case is judged against a truly new context) before it is reported, and one case in 10 (quick) / 6 (thorough) uses truly new contexts directly. \
